@@ -11,6 +11,10 @@ import GoomVerif.Model.Equal
 * `term`  = `b ty 0|1` | `i ty s|u z` | `f ty 32|64 0xbits txthex` | `s ty hex|- pi|- 0xpf|-` | `st ty n term*` | `ar ty n term*`
           | `sl ty nil` | `sl ty id n term*` | `mp ty nil` | `mp ty id n (k v)*` | `p ty nil` | `p ty addr term`
           | `if ty nil` | `if ty term` | `fn ty nil` | `fn ty code env`
+          | `ss ty bid lo hi n term*`  = `backing[lo:hi]` of the backing array `bid` whose n elements follow (sub-slices sharing storage;
+            the model keeps the elements lo..hi and the data-pointer label (bid, lo), everything else about sharing is erased)
+`c18.evv <nT> <T>* <ElemT> in … <k> (<fixed inputs> <m> <m elements>)*` — `In` with tuple items in variadic mode, the last `T` is the
+variadic slice type, `ElemT` its element type; the probe packs the m elements into one slice as a real call does.
 Strings are hex of their bytes (one `Char` per byte). -/
 namespace Drv.C18
 open C18M
@@ -77,7 +81,15 @@ def pTerm (fuel : Nat) : P Val := fun toks =>
       let id ← parseNat id
       let n ← parseNat n
       let (vs, r) ← pTerms fuel n r
-      pure (.slice ty id (Vals.ofList vs), r)
+      pure (.slice ty (2 * id) (Vals.ofList vs), r)
+    | "ss" :: ty :: bid :: lo :: hi :: n :: r => do      -- backing[lo:hi] of the backing array `bid` with the n given elements
+      let bid ← parseNat bid
+      let lo ← parseNat lo
+      let hi ← parseNat hi
+      let n ← parseNat n
+      let (vs, r) ← pTerms fuel n r
+      if bid = 0 || lo > hi || hi > n then none
+      else pure (.slice ty (2 * (bid * 65536 + lo) + 1) (Vals.ofList ((vs.drop lo).take (hi - lo))), r)
     | "mp" :: ty :: "nil" :: r => some (.nilmap ty, r)
     | "mp" :: ty :: id :: n :: r => do
       let id ← parseNat id
@@ -220,7 +232,52 @@ def showObs : Obs → String
   | .resolved r => showRes (fun _ => "ok") r
   | .answered r => showRes (fun b => if b then "t" else "f") r
 
+def pElems (fuel : Nat) (t : Ty) : Nat → P (List (Option Val))
+  | 0, toks => some ([], toks)
+  | n + 1, toks => do
+    let (v, r) ← pInput fuel t toks
+    let (vs, r) ← pElems fuel t n r
+    pure (v :: vs, r)
+
+/-- variadic input tuples: the fixed arguments, then `<m>` and the m elements of the packed last argument -/
+def pTuplesV (fuel : Nat) (fixed : List Ty) (elemT : Ty) : Nat → P (List (List (Option Val) × List (Option Val)))
+  | 0, toks => some ([], toks)
+  | n + 1, toks => do
+    let (f, r) ← pTuple fuel fixed toks
+    let (m, r) ← (match r with | m :: r => (parseNat m).map (fun m => (m, r)) | [] => none)
+    let (es, r) ← pElems fuel elemT m r
+    let (ts, r) ← pTuplesV fuel fixed elemT n r
+    pure ((f, es) :: ts, r)
+
+def handleV (toks : List String) : Option String :=
+  match toks with
+  | "c18.evv" :: n :: rest =>
+    let fuel := toks.length + 1
+    let go : Option String := do
+      let n ← parseNat n
+      let (tys, r) ← pTys n rest
+      let (elemT, r) ← (match r with | t :: r => (parseTy t).map (fun t => (t, r)) | [] => none)
+      if tys.isEmpty then none else
+      let fixed := tys.dropLast
+      let (e, r) ← pExpr fuel r
+      let (k, r) ← (match r with | k :: r => (parseNat k).map (fun k => (k, r)) | [] => none)
+      let (inputs, r) ← pTuplesV fuel fixed elemT k r
+      if !r.isEmpty then none else
+      match e with
+      | .inE items =>
+        match resolveInV items fixed elemT with
+        | .ok rx =>
+          let ans := inputs.map (fun (f, es) => showRes (fun b => if b then "t" else "f") (evalInV rx f es))
+          pure s!"R=ok E={String.intercalate "," ans}"
+        | other => pure s!"R={showRes (fun _ => "ok") other}"
+      | _ => none
+    some (go.getD "bad-op")
+  | _ => none
+
 def handle (toks : List String) : Option String :=
+  match handleV toks with
+  | some s => some s
+  | none =>
   match toks with
   | "c18.ev" :: n :: rest =>
     let fuel := toks.length + 1
